@@ -487,3 +487,162 @@ func VH_C05_savePV() {
 	}
 	vxReach("savePV.end")
 }
+
+// C05 (PV clause, one node): the line a node reports is its move followed by the line of THAT move's
+// own child search - never a continuation left behind by a sibling. Children that are searched leave
+// their own line (here: a marker naming the child) or none in pv[ply+1]; a child that is scored without
+// being searched (draw by repetition / 50 moves) has no line. With the induction hypothesis "a child's
+// line is a playable sequence from the child position" this is the inductive step of "every reported
+// PV (and the ponder move, pv[0][1]) is playable".
+func VH_C05_node_pv_continuation_belongs_to_its_move() {
+	vxOpt("replay", "abstract")
+	vxUnwind(vxK + 3)
+	vxSymSearchSwitches(true)
+	Settings.Search.UseIID = false // IID re-enters the same ply; its line is overwritten by the real search of the node
+	n := vxSymNode()
+	const ply = 1
+	var s *Search
+	child := func(pp *position.Position, depth, cply int, a, b Value) Value {
+		s.pv[cply].Clear()
+		if vxFreshBool("child.reports-a-line") {
+			s.pv[cply].PushBack(Move(1000 + n.cur))
+		}
+		return vxAnyChildValue(pp, depth, cply, a, b)
+	}
+	s2, p := vxNodeSearch(n, ply, child)
+	s = s2
+	s.tt = &transpositiontable.TtTable{}
+	depth := vxInt("depth")
+	vxAssume(depth >= 1 && depth <= 12)
+	alpha, beta := Value(vxI16("alpha")), Value(vxI16("beta"))
+	vxAssume(alpha >= ValueMin && alpha < beta && beta <= ValueMax)
+	s.search(p, depth, ply, alpha, beta, true, false)
+	pv := s.pv[ply]
+	if pv.Len() > 0 {
+		first := pv.At(0).MoveOf()
+		found, at := false, 0
+		for i := 0; i < vxK; i++ {
+			if i < n.k && n.moves[i] == first {
+				found, at = true, i
+			}
+		}
+		vxAssert(found, "node-pv-starts-with-a-move-of-the-node")
+		vxAssert(!found || n.legal[at], "node-pv-starts-with-a-legal-move")
+		if found && pv.Len() > 1 {
+			vxAssert(pv.Len() == 2 && pv.At(1) == Move(1000+at), "node-pv-continuation-is-the-line-of-the-move-it-follows")
+			vxReach("c05.pv.with-continuation")
+		}
+		vxReach("c05.pv.written")
+	}
+	vxReach("c05.pv.end")
+}
+
+// C05 (best-move clause, whole iteration loop): the real iterativeDeepening with rootSearch replaced by
+// the contract VH_C05_root_iteration_best_move_is_legal establishes for it (an iteration of depth 1,
+// or one that is not interrupted, leaves a legal root move at pv[0][0]; an interrupted deeper iteration
+// leaves pv[0] as it was). Stop may arrive during any iteration and then stays; the hash table answers
+// arbitrarily. Whatever happens, the reported best move is one of the legal root moves and no buffer is
+// indexed out of range.
+func VH_C05_iterative_deepening_reports_a_legal_root_move() {
+	vxOpt("replay", "abstract")
+	vxUnwind(6)
+	vxSymSearchSwitches(false)
+	n := vxSymNode()
+	vxAssume(n.k >= 1)
+	s, p := vxNodeSearch(n, 0, vxAnyChildValue)
+	s.tt = &transpositiontable.TtTable{}
+	vxStub(vxSrchPfx+"sendInfoStringToUci", func(ss *Search, m string) {})
+	vxStub(vxSrchPfx+"sendIterationEndInfoToUci", func(ss *Search) {})
+	vxStub(vxSrchPfx+"checkDrawRepAnd50", func(ss *Search, pp *position.Position, i int) bool { return false })
+	vxStub("(*github.com/frankkopp/FrankyGo/internal/moveslice.MoveSlice).Sort", func(ms *moveslice.MoveSlice) {})
+	// the hash table answers every kind of look-up arbitrarily
+	vxStub("(*github.com/frankkopp/FrankyGo/internal/transpositiontable.TtTable).GetEntry", func(tt *transpositiontable.TtTable, key position.Key) *transpositiontable.TtEntry {
+		if vxFreshBool("tt.get.hit") {
+			e := &transpositiontable.TtEntry{}
+			e.Move = Move(uint16(vxFreshI16("tt.get.move"))) | Move(uint16(vxFreshI16("tt.get.value")))<<16
+			e.Depth = int8(vxFreshI16("tt.get.depth"))
+			e.Type = ValueType(vxFreshI16("tt.get.type") & 3)
+			return e
+		}
+		return nil
+	})
+	stopped := false
+	vxStub(vxSrchPfx+"stopConditions", func(ss *Search) bool { return stopped })
+	vxStub(vxSrchPfx+"rootSearch", func(ss *Search, pp *position.Position, depth int, alpha Value, beta Value) Value {
+		if vxFreshBool("stop-arrives-during-this-iteration") {
+			stopped = true
+		}
+		if stopped && depth > 1 {
+			return 0
+		}
+		j := int(vxFreshI16("best-root-move-of-this-iteration"))
+		vxAssume(j >= 0 && j < n.k)
+		ss.pv[0].Clear()
+		ss.pv[0].PushBack(n.moves[j])
+		if vxFreshBool("pv-has-a-continuation") {
+			ss.pv[0].PushBack(Move(vxFreshI16("pv.second")))
+		}
+		return 0
+	})
+	root := moveslice.NewMoveSlice(8)
+	for i := 0; i < vxK; i++ {
+		if i < n.k {
+			root.PushBack(n.moves[i])
+		}
+	}
+	vxStub("(*github.com/frankkopp/FrankyGo/internal/movegen.Movegen).GenerateLegalMoves", func(mg *movegen.Movegen, pp *position.Position, mode movegen.GenMode) *moveslice.MoveSlice {
+		return root
+	})
+	s.searchLimits.Depth = vxInt("limit.depth")
+	vxAssume(s.searchLimits.Depth >= 1 && s.searchLimits.Depth <= 4) // every further iteration repeats the same step
+	res := s.iterativeDeepening(p)
+	isRoot := false
+	for i := 0; i < vxK; i++ {
+		if i < n.k && res.BestMove == n.moves[i].MoveOf() {
+			isRoot = true
+		}
+	}
+	vxAssert(isRoot, "iterative-deepening.best-move-is-a-legal-root-move")
+	vxReach("c05.iterdeep.end")
+}
+
+// the same step for a quiescence node
+func VH_C05_qnode_pv_continuation_belongs_to_its_move() {
+	vxOpt("replay", "abstract")
+	vxUnwind(vxK + 3)
+	vxSymSearchSwitches(true)
+	Settings.Search.UseQuiescence = true
+	n := vxSymNode()
+	const ply = 2
+	var s *Search
+	s2, p := vxNodeSearch(n, ply, vxAnyChildValue)
+	s = s2
+	s.tt = &transpositiontable.TtTable{}
+	vxUnstub(vxSrchPfx + "qsearch")
+	vxStubNested(vxSrchPfx+"qsearch", func(ss *Search, pp *position.Position, cply int, alpha Value, beta Value, isPV bool) Value {
+		s.pv[cply].Clear()
+		if vxFreshBool("child.reports-a-line") {
+			s.pv[cply].PushBack(Move(1000 + n.cur))
+		}
+		return vxAnyChildValue(pp, 0, cply, alpha, beta)
+	})
+	alpha, beta := Value(vxI16("alpha")), Value(vxI16("beta"))
+	vxAssume(alpha >= ValueMin && alpha < beta && beta <= ValueMax)
+	s.qsearch(p, ply, alpha, beta, true)
+	pv := s.pv[ply]
+	if pv.Len() > 0 {
+		first := pv.At(0).MoveOf()
+		found, at := false, 0
+		for i := 0; i < vxK; i++ {
+			if i < n.k && n.moves[i] == first {
+				found, at = true, i
+			}
+		}
+		vxAssert(found, "qnode-pv-starts-with-a-move-of-the-node")
+		if found && pv.Len() > 1 {
+			vxAssert(pv.Len() == 2 && pv.At(1) == Move(1000+at), "qnode-pv-continuation-is-the-line-of-the-move-it-follows")
+			vxReach("c05.qpv.with-continuation")
+		}
+	}
+	vxReach("c05.qpv.end")
+}
